@@ -95,6 +95,7 @@ var argPool = []string{
 	"{ out x }", "{ }", "{ err e }", "{ (1/0) }", "{ $undef }", "{ false }", "{ true }", "{ break vfoo }", "{ return 3 }", "{", "}",
 	"(1+", "1/0", "a.b.c", "/a/b", "/0", "/-1", "-1", "a", "b", "c", "then", "else", "case", "default", "on", "off", "enable", "disable",
 	"unit", "function", "run", "config", "define", "state", "report", "builtin", "get", "set", "--variables", "--fids", "--functions", "--aliases", "--named-pipes", "--globals", "--config", "--memstats", "--not-a-flag",
+	"--down", "--up", "1e-1", "0.1", "5", "*0", "*1", "*2", "*-1", ":0", ":a", "0:", "1:", "2:", ":1",
 	"é", "日本", "\\n", "\\x", "\\", "a\\ b", "#c", "vfoo", "vbar", "vp1", "vp2", "std", "file", "0x10", "--parallel", "--step", "--jmap", "--trypipe",
 }
 
@@ -124,13 +125,14 @@ var templates = []string{
 	"%s -> alter %s %s", "%s -> format %s", "%s -> cast %s", "%s -> select %s", "%s -> struct-keys %s", "%s -> ~> %s",
 	"%s -> regexp %s", "%s -> match %s", "%s -> left %s", "%s -> right %s", "%s -> mjoin %s", "%s -> jsplit %s", "%s -> 2darray %s", "%s -> addheading %s",
 	"%s -> count %s", "%s -> pretty %s", "%s -> tabulate %s", "%s -> round %s", "a %s", "ja %s", "ta %s %s", "rand %s %s", "datetime %s %s", "printf %s %s",
+	"round %s %s %s", "%s -> [ %s %s ]", "%s -> [ %s ]", "map { %s } { %s }", "map { a: [1..5] } { a: %s }",
 	"exitnum", "return %s", "break %s", "continue %s", "history %s", "jobs %s", "fid-list %s", "runtime %s", "time { out x }", "which %s", "type %s",
 	// size and nesting stress
 	"out " + strings.Repeat("x", 70000) + " -> %s %s", "out %s " + strings.Repeat("${out ", 40) + "x" + strings.Repeat("}", 40),
 	strings.Repeat("if { true } then { ", 60) + "out %s" + strings.Repeat(" }", 60), "out " + strings.Repeat("%%[", 150) + "%s" + strings.Repeat("]", 150),
 	"(" + strings.Repeat("(1+", 120) + "%s" + strings.Repeat(")", 120) + ")", "a [1..3000] -> foreach v { } -> %s %s", "%s " + strings.Repeat("a ", 3000),
 	"out " + strings.Repeat("a\\ ", 500) + "-> %s", "tout json (" + strings.Repeat("[", 300) + strings.Repeat("]", 300) + ") -> %s %s",
-	"alias vbar=vbaz\nalias vbaz=vbar\nvbar %s", "function vbaz { out $1 -> vq1 }\nfunction vq1 { <stdin> -> %s %s }\nvbaz %s",
+	"alias vbar=vbaz\nalias vbaz=vbar\nvbar %s", "function vq3 { out $1 -> vq4 }\nfunction vq4 { <stdin> -> %s %s }\nvq3 %s",
 	"%s -> formap k v { out $k $v }", "for ( i=0; i<3; i++ ) { %s %s }", "v = 0\nwhile { $v < 3 } { v = $v + 1 ; %s %s }", "%s -> foreach --parallel %s v { out $v }",
 	"%s -> foreach --step %s v { out $v }", "%s -> foreach --jmap k { $k } { %s }", "test define vq2 %s\nout x -> <test_vq2> -> null", "%s -> <%s>", "<%s> -> %s",
 	"config get %s %s", "config eval %s %s { %s }", "!config %s %s", "runmode %s function\nout x", "%s -> tabulate --map --key-value %s", "%s -> tabulate --split-comma --joiner %s",
@@ -187,7 +189,10 @@ func gen(t *rapid.T) Case {
 	return c
 }
 
-var crashMarkers = []string{"panic caught", "Murex has crashed", "runtime error:", "fatal error:", "goroutine 1 [", "invalid memory address", "index out of range", "slice bounds out of range", "nil map"}
+// texts only an internal panic produces (a Go run-time panic always carries
+// "runtime error:"; plain phrases such as "index out of range" are not used,
+// a clean error message may legitimately contain them)
+var crashMarkers = []string{"panic caught", "Murex has crashed", "runtime error:", "fatal error:", "goroutine 1 ["}
 
 var usesDelayed = regexp.MustCompile(`\bpipe\b`)
 
